@@ -37,6 +37,29 @@ CLAIMS = {
   "technique": "static analysis: callback-linearity typestate on clang CFG + sibling/argument agreement rules",
   "design_ref": "DESIGN.md section 4, C06",
  },
+ "C08": {
+  "text": "Static analysis of http.c on every path: callback linearity and no use-after-release across the twelve continuation "
+          "functions; no window pointer from the buffered reader reaches a NUL-terminated-string consumer unguarded (this rule located "
+          "a real heap over-read, now fixed); the body budget invariant bodylen + readlen <= limit proved from the dominating guards at "
+          "every budget store and append with a tiny linear-fact domain (this rule located a real off-by-two assertion failure/overflow, "
+          "now fixed); status gate 100..599 before any completion or body handler; freed request fields cleared before the request is "
+          "passed on. Hostile byte streams only choose CFG edges, and all edges are analysed.",
+  "note": "Trusted: the reader's peek window is exactly buflen readable bytes; libc strto*/sscanf semantics. Not decided: the "
+          "line-splitting assertions in header parsing (a counting argument E3 cannot carry), termination, success-path leaks.",
+  "technique": "static analysis: typestate (linearity), taint (unterminated window), linear-fact dataflow (budget invariant) on clang CFG",
+  "design_ref": "DESIGN.md section 4, C08",
+ },
+ "C09": {
+  "text": "Structural necessary conditions of exact decoding, decided on all paths: the window-relative header cursor is never read "
+          "stale after a consume, across tail calls and later events (this rule located a real defect with 1xx interim responses, now "
+          "fixed); request head length equals the pieces copied, piece for piece and loop for loop, in wire-grammar order, head before "
+          "body; framing precedence HEAD/204/304 > chunked > Content-Length > EOF; the body budget shared with C08 so that bodies at "
+          "the limit decode.",
+  "note": "Not decided: header name/value extraction, OWS trimming and chunk reassembly as string semantics; these quantify over "
+          "byte values and are outside shape-level rules.",
+  "technique": "static analysis: stale-cursor typestate over the continuation graph, length/piece multiset agreement, dominance rules",
+  "design_ref": "DESIGN.md section 4, C09",
+ },
 }
 
 NOT_APPLICABLE = {
